@@ -262,9 +262,9 @@ class SizeMonitor(Monitor):
     def after_call(self, core_before, core_after, callee, node, eng):
         # a public setter used as a sub-operation (set_host -> set_port) handles its own over-limit
         # edge (decided when that setter is analysed on its own): its `over` flag does not leak out
-        n = callee.get("name", "")
-        if n in SETTER_NAMES or n == "set_host_or_hostname":
-            return core_after[:2] + (core_before[2],) + core_after[3:]
+        # (An earlier version cleared the `over` flag here on the grounds that the inner setter handles its
+        #  own over-limit edge.  That hid a genuine defect - finding F5: the outer setter goes on and
+        #  reports success with a partial update - so the flag is deliberately kept.)
         return core_after
 
     def on_decl(self, core, var, init, eng):
